@@ -8,13 +8,16 @@
 //     L S := ul(us(.)),  S^-1 L^-1 := usi(uli(.)).
 // What ties them to the standard:
 //   * S / S^-1: leaf lemmas of the back end (sub_bytes, table rows) + pi^-1(pi(x)) = x (kuz_leaf_consts);
-//   * L^-1(L(x)) = x = L(L^-1(x)) for the oracle's L: kuz_l_inverse (solver, stepwise over the 16 R steps);
+//   * L^-1(L(x)) = x = L(L^-1(x)) for the oracle's L: kuz_l_inverse_fb / kuz_l_inverse_bf (solver, stepwise over the 16 R steps);
 //   * the table back ends pre-transform the decryption keys with L^-1, which is correct because L^-1 is GF(2)-linear.
 //     A SAT solver cannot decide L^-1(a ^ k) = L^-1(a) ^ L^-1(k) over 256 bits as one query (XOR re-association: CaDiCaL
-//     and kissat both exceeded 900 s even for one R step), so the lemma is proved by a proof script, kuz_lin_l /
-//     kuz_lin_linv: every R step is split into its sixteen partial sums, each check being a small re-association, earlier
-//     checks available as hypotheses.  The W harnesses then ASSUME exactly the instances of that lemma they need
-//     (`lin_instances`, eight per decryption) on the uninterpreted L^-1.
+//     and kissat both exceeded 900 s even for one R step), so the lemma is proved in three levels with the level below
+//     uninterpreted (kuz_lin_mul, kuz_lin_lfunc, kuz_lin_l / kuz_lin_linv, see below).  The W harnesses then ASSUME exactly
+//     the instances of that lemma they need (`lin_instances`, eight per decryption) on the uninterpreted L^-1.
+// The key schedule is a separate W query (w_keys: the real expansion == the oracle's, all 2^256 keys, L S one uninterpreted
+// function); the encryption / decryption queries run over ARBITRARY round keys (a superset of the key schedule's outputs), so
+// conformance for all keys is (key schedule lemma) + (arbitrary-round-key lemma).  Doing both in one query does not fit:
+// measured out of memory at 30 GB (the oracle computing C_1..C_32 at run time alone is ~0.8 M program steps).
 use super::prelude::*;
 use crate::{Kuznyechik, KuznyechikDec, KuznyechikEnc};
 use cipher::{BlockCipherDecrypt, BlockCipherEncrypt, KeyInit};
@@ -55,6 +58,31 @@ pub fn ul(a: &B16) -> B16 {
 pub fn uli(a: &B16) -> B16 {
     unpack(uf_l::inv(pack(a)))
 }
+fn conc_ls(x: u128) -> u128 {
+    pack(&r::ls(&unpack(x)))
+}
+// key schedule queries: the composite L S as ONE uninterpreted function (no inverse needed there)
+cuf1!(uf_ls, vuf_kuznyechik_kz_ls, u128, u128, conc_ls);
+pub fn uls1(a: &B16) -> B16 {
+    unpack(uf_ls::call(pack(a)))
+}
+/// C_1 .. C_32 of the oracle evaluated at compile time (rustc's constant evaluation of refmodels::kuznyechik::c); the
+/// solver ties it to the run-time function (kuz_oracle_consts).  Replaces `c` inside the oracle's key schedule in the key
+/// schedule queries, where evaluating c(1..32) by symbolic execution costs ~0.8 M program steps (~6 GB).
+#[allow(long_running_const_eval)]
+pub const CS: [B16; 32] = {
+    let mut t = [[0u8; 16]; 32];
+    let mut i = 0;
+    while i < 32 {
+        t[i] = r::c(i + 1);
+        i += 1;
+    }
+    t
+};
+/// replaces refmodels::kuznyechik::c (argument 1..=32)
+pub fn stub_c(i: usize) -> B16 {
+    CS[i - 1]
+}
 /// L S
 pub fn uls(a: &B16) -> B16 {
     ul(&us(a))
@@ -73,7 +101,7 @@ pub fn xor16(a: &B16, b: &B16) -> B16 {
     o
 }
 
-/// The instances of the linearity of L^-1 (lemma kuz_lin_linv) that decrypting `c` with pre-transformed keys relies on:
+/// The instances of the linearity of L^-1 (lemma kuz_lin_linv: PASS, all 2^256 pairs) that decrypting `c` with pre-transformed keys relies on:
 /// L^-1(a_i ^ K_i) == L^-1(a_i) ^ L^-1(K_i) for the eight intermediate values a_i = S^-1 L^-1 (...) of the standard's
 /// decryption and K_9 .. K_2.  False: the (uninterpreted) L^-1 chosen by the solver is not linear there -- outside the
 /// assumption.
@@ -168,14 +196,16 @@ pub fn w_enc_rk(inp: &[u8], route: Route) -> Option<bool> {
     enc_via(c, route, &mut b);
     Some(b.0 == r::encrypt_with(&rk, &blk, uls))
 }
-/// inp = key (32).  Round keys of KuznyechikEnc::new(key) == oracle key schedule.
+/// inp = key (32).  Round keys of KuznyechikEnc::new(key) (the real key expansion of the back end) == oracle key schedule, with
+/// L S the single uninterpreted function `uls1` on both sides (the harness stubs the back end's leaf with it) and the oracle's
+/// constants C_i taken from the compile-time table CS (the harness stubs refmodels::kuznyechik::c with stub_c).
 pub fn w_keys(inp: &[u8]) -> Option<bool> {
     let key: [u8; 32] = take(inp, 0);
     let c = KuznyechikEnc::new(&key.into());
     #[repr(C, align(16))]
     struct A([B16; 10]);
     let m = unsafe { core::mem::transmute::<KuznyechikEnc, A>(c) };
-    let rk = r::key_schedule_with(&key, uls);
+    let rk = r::key_schedule_with(&key, uls1);
     let mut i = 0;
     while i < 10 {
         vcheck!(m.0[i] == rk[i]);
@@ -183,34 +213,26 @@ pub fn w_keys(inp: &[u8]) -> Option<bool> {
     }
     Some(true)
 }
-/// inp = key (32) | block (16).  which: 0 KuznyechikEnc::new, 1 Kuznyechik::new -- encrypt_block == oracle E(key schedule(key)).
-pub fn w_enc_key(inp: &[u8], which: u8) -> Option<bool> {
-    let key: [u8; 32] = take(inp, 0);
-    let blk: B16 = take(inp, 32);
-    let mut b = blk.into();
-    if which == 0 {
-        KuznyechikEnc::new(&key.into()).encrypt_block(&mut b);
-    } else {
-        Kuznyechik::new(&key.into()).encrypt_block(&mut b);
+/// inp = K1..K10 (160) | NB blocks (16 NB).  KuznyechikEnc::encrypt_blocks on NB blocks (the back end's encrypt_par_blocks on
+/// every full batch, encrypt_block on the tail) == NB single encrypt_block calls on the same instance.
+pub fn w_par_enc<const NB: usize>(inp: &[u8]) -> Option<bool> {
+    let (c, _rk) = enc_of_rk(inp, 0);
+    let mut bl = [crate::Block::from([0u8; 16]); NB];
+    let mut i = 0;
+    while i < NB {
+        bl[i] = take::<16>(inp, 160 + 16 * i).into();
+        i += 1;
     }
-    let rk = r::key_schedule_with(&key, uls);
-    Some(b.0 == r::encrypt_with(&rk, &blk, uls))
-}
-/// inp = key (32) | block (16).  which: 0 KuznyechikDec::new, 1 Kuznyechik::new -- decrypt_block == oracle D(key schedule(key)).
-pub fn w_dec_key(inp: &[u8], which: u8, need_lin: bool) -> Option<bool> {
-    let key: [u8; 32] = take(inp, 0);
-    let blk: B16 = take(inp, 32);
-    let rk = r::key_schedule_with(&key, uls);
-    if need_lin {
-        vassume!(lin_instances(&rk, &blk));
+    let single = bl;
+    c.encrypt_blocks(&mut bl[..]);
+    i = 0;
+    while i < NB {
+        let mut b = single[i];
+        c.encrypt_block(&mut b);
+        vcheck!(b.0 == bl[i].0);
+        i += 1;
     }
-    let mut b = blk.into();
-    if which == 0 {
-        KuznyechikDec::new(&key.into()).decrypt_block(&mut b);
-    } else {
-        Kuznyechik::new(&key.into()).decrypt_block(&mut b);
-    }
-    Some(b.0 == r::decrypt_with(&rk, &blk, usi, uli))
+    Some(true)
 }
 /// inp = K1..K10 (160) | block (16).  Round trips through the real conversions:
 /// order 0: KuznyechikEnc encrypts, KuznyechikDec::from(&enc) decrypts; 1: Kuznyechik::from(&enc) dec(enc(b)); 2: enc(dec(b)).
@@ -247,20 +269,29 @@ pub fn w_roundtrip_rk(inp: &[u8], order: u8, need_lin: bool) -> Option<bool> {
 }
 
 // ------------------------------------------------------------------------------------------------ lemmas on the oracle alone
-
-/// `a` with the octets of index >= j cleared: l_func of it is the j-th partial sum c_0 a_0 + ... + c_{j-1} a_{j-1}
-/// (the cleared terms fold to the constant 0 during symbolic execution).
-fn trunc(a: &B16, j: usize) -> B16 {
-    let mut o = [0u8; 16];
-    let mut i = 0;
-    while i < 16 {
-        if i < j {
-            o[i] = a[i];
-        }
-        i += 1;
-    }
-    o
+//
+// GF(2)-linearity of the oracle's L = R^16 and L^-1 = (R^-1)^16, in three levels; every level is about the oracle functions
+// that all other harnesses use (refmodels::kuznyechik::{mul_lc, l_func, r, r_inv, l, l_inv}); the level below is replaced
+// IN THE ORACLE (kani::stub) by an uninterpreted function, and the instances of the lower lemma at the applied points are
+// assumed:
+//   kuz_lin_mul    c_j * (a ^ b) == c_j * a ^ c_j * b for the sixteen coefficients (mul_lc; all j, a, b), mul_lc == gf_mul
+//   kuz_lin_lfunc  l(u ^ v) == l(u) ^ l(v) for all 2^256 (u, v); mul_lc uninterpreted + its 16 additivity instances
+//   kuz_lin_l / kuz_lin_linv   L(u ^ v) == L(u) ^ L(v), L^-1 likewise, all 2^256 (u, v); l_func uninterpreted + the 16
+//                  instances l(u_s ^ v_s) == l(u_s) ^ l(v_s) along the two runs (pure wiring + functional consistency)
+fn conc_lfunc(x: u128) -> u8 {
+    r::l_func(&unpack(x))
 }
+cuf2!(uf_mul, vuf_kuznyechik_kz_mul, usize, u8, u8, r::mul_lc);
+cuf1!(uf_lf, vuf_kuznyechik_kz_lf, u128, u8, conc_lfunc);
+/// replaces refmodels::kuznyechik::mul_lc (c_j * v)
+pub fn stub_mul_lc(j: usize, v: u8) -> u8 {
+    uf_mul::call(j, v)
+}
+/// replaces refmodels::kuznyechik::l_func (the linear form l)
+pub fn stub_l_func(a: &B16) -> u8 {
+    uf_lf::call(pack(a))
+}
+
 /// R^-1 feeds l with (a14, ..., a0, a15)
 fn rot_in(a: &B16) -> B16 {
     let mut t = [0u8; 16];
@@ -273,64 +304,104 @@ fn rot_in(a: &B16) -> B16 {
     t
 }
 
-/// Proof script for F(u ^ v) == F(u) ^ F(v), F = L = R^16 (inv = false) or F = L^-1 = (R^-1)^16 (inv = true).
-/// Invariant before step s: w = u ^ v (as a value: the XOR of the two running states), z = R^s(u0 ^ v0) computed straight.
-/// A step only creates one new octet, l(.) of the (rotated) state; its linearity is checked partial sum by partial sum.
-fn lin_script(inp: &[u8], inv: bool) -> Option<bool> {
+//@ harness name=kuz_lin_mul prop=C07 tier=quick bits=20 est=13 variants=kuznyechik desc="L (oracle only, direct): for the sixteen coefficients c_j of l and all octets a, b: mul_lc(j, a) == gf_mul(c_j, a) (schoolbook field multiplication mod x^8+x^7+x^6+x+1) and mul_lc(j, a ^ b) == mul_lc(j, a) ^ mul_lc(j, b); j symbolic"
+verif_harness! {
+    name: kuz_lin_mul,
+    bytes: 3,
+    unwind: 20,
+    prop: |inp| {
+        let j = (inp[0] & 15) as usize;
+        let (a, b) = (inp[1], inp[2]);
+        vcheck!(r::mul_lc(j, a) == r::gf_mul(r::LC[j], a));
+        Some(r::mul_lc(j, a ^ b) == r::mul_lc(j, a) ^ r::mul_lc(j, b))
+    }
+}
+
+//@ harness name=kuz_lin_lfunc prop=C07 tier=quick bits=256 stub=1 est=17 variants=kuznyechik desc="W (oracle only): l_func(u ^ v) == l_func(u) ^ l_func(v) for all 2^256 (u, v); the oracle's mul_lc is an uninterpreted function, its sixteen additivity instances at (u_j, v_j) assumed (lemma kuz_lin_mul)"
+verif_harness! {
+    name: kuz_lin_lfunc,
+    bytes: 32,
+    unwind: 20,
+    stubs: [(refmodels::kuznyechik::mul_lc, stub_mul_lc)],
+    prop: |inp| {
+        let u: B16 = take(inp, 0);
+        let v: B16 = take(inp, 16);
+        let mut j = 0;
+        while j < 16 {
+            vassume!(r::mul_lc(j, u[j] ^ v[j]) == r::mul_lc(j, u[j]) ^ r::mul_lc(j, v[j]));
+            j += 1;
+        }
+        Some(r::l_func(&xor16(&u, &v)) == r::l_func(&u) ^ r::l_func(&v))
+    }
+}
+
+/// F(u ^ v) == F(u) ^ F(v) for F = L (inv = false) / L^-1 (inv = true) of the oracle, l_func uninterpreted.  Along the runs
+/// u_{s+1} = R(u_s), v_{s+1} = R(v_s) the instance l(u_s ^ v_s) == l(u_s) ^ l(v_s) of kuz_lin_lfunc is assumed (for R^-1 at
+/// the rotated words; the rotation is an octet permutation, so rot(u ^ v) = rot(u) ^ rot(v)).  l(u_s) is taken from the
+/// run itself: octet 0 of R(u_s) resp. octet 15 of R^-1(u_s).
+fn lin_l(inp: &[u8], inv: bool) -> Option<bool> {
     let u0: B16 = take(inp, 0);
     let v0: B16 = take(inp, 16);
     let (mut u, mut v) = (u0, v0);
-    let mut z = xor16(&u0, &v0);
     let mut s = 0;
     while s < 16 {
         let w = xor16(&u, &v);
-        vcheck!(z == w);
-        let (tu, tv, tw) = if inv { (rot_in(&u), rot_in(&v), rot_in(&w)) } else { (u, v, w) };
-        let mut j = 1;
-        while j <= 16 {
-            vcheck!(r::l_func(&trunc(&tw, j)) == r::l_func(&trunc(&tu, j)) ^ r::l_func(&trunc(&tv, j)));
-            j += 1;
+        if inv {
+            let (nu, nv) = (r::r_inv(&u), r::r_inv(&v));
+            vassume!(r::l_func(&rot_in(&w)) == nu[15] ^ nv[15]);
+            u = nu;
+            v = nv;
+        } else {
+            let (nu, nv) = (r::r(&u), r::r(&v));
+            vassume!(r::l_func(&w) == nu[0] ^ nv[0]);
+            u = nu;
+            v = nv;
         }
-        let (nu, nv, nw) = if inv { (r::r_inv(&u), r::r_inv(&v), r::r_inv(&w)) } else { (r::r(&u), r::r(&v), r::r(&w)) };
-        vcheck!(nw == xor16(&nu, &nv));
-        z = if inv { r::r_inv(&z) } else { r::r(&z) };
-        u = nu;
-        v = nv;
         s += 1;
     }
-    vcheck!(z == xor16(&u, &v));
-    let (fu, fv, fz) = if inv {
-        (r::l_inv(&u0), r::l_inv(&v0), r::l_inv(&xor16(&u0, &v0)))
+    let z0 = xor16(&u0, &v0);
+    if inv {
+        Some(r::l_inv(&z0) == xor16(&r::l_inv(&u0), &r::l_inv(&v0)))
     } else {
-        (r::l(&u0), r::l(&v0), r::l(&xor16(&u0, &v0)))
-    };
-    vcheck!(fu == u && fv == v && fz == z);
-    Some(fz == xor16(&fu, &fv))
+        Some(r::l(&z0) == xor16(&r::l(&u0), &r::l(&v0)))
+    }
 }
 
-//@ harness name=kuz_lin_l prop=C07 tier=thorough bits=256 est=300 variants=kuznyechik desc="L (oracle only, proof script): L(u ^ v) == L(u) ^ L(v) for all 2^256 (u, v): 16 R steps x 16 partial sums of l, each check a small XOR re-association with the earlier checks as hypotheses"
+//@ harness name=kuz_lin_l prop=C07 tier=quick bits=256 stub=1 est=90 variants=kuznyechik desc="W (oracle only): L(u ^ v) == L(u) ^ L(v) for all 2^256 (u, v), L = R^16 of the oracle; the oracle's l_func is an uninterpreted function {0,1}^128 -> {0,1}^8 and its additivity at the 16 points (u_s, v_s) of the two runs is assumed (lemma kuz_lin_lfunc); the rest is shift wiring and functional consistency"
 verif_harness! {
     name: kuz_lin_l,
     bytes: 32,
     unwind: 20,
-    prop: |inp| { lin_script(inp, false) }
+    stubs: [(refmodels::kuznyechik::l_func, stub_l_func)],
+    prop: |inp| { lin_l(inp, false) }
 }
-//@ harness name=kuz_lin_linv prop=C07 tier=thorough bits=256 est=300 variants=kuznyechik desc="L (oracle only, proof script): L^-1(u ^ v) == L^-1(u) ^ L^-1(v) for all 2^256 (u, v) -- the lemma whose instances the decryption harnesses of the table back ends assume"
+//@ harness name=kuz_lin_linv prop=C07 tier=quick bits=256 stub=1 est=100 variants=kuznyechik desc="W (oracle only): L^-1(u ^ v) == L^-1(u) ^ L^-1(v) for all 2^256 (u, v), L^-1 = (R^-1)^16 of the oracle, same shape as kuz_lin_l -- the lemma whose instances (lin_instances) the decryption harnesses of the table back ends assume"
 verif_harness! {
     name: kuz_lin_linv,
     bytes: 32,
     unwind: 20,
-    prop: |inp| { lin_script(inp, true) }
+    stubs: [(refmodels::kuznyechik::l_func, stub_l_func)],
+    prop: |inp| { lin_l(inp, true) }
 }
 
-//@ harness name=kuz_l_inverse prop=C07,C01 tier=thorough bits=128 est=200 variants=kuznyechik desc="L (oracle only, stepwise): R^-1(R(a)) == a and R(R^-1(a)) == a along the 16 steps, hence L^-1(L(x)) == x and L(L^-1(x)) == x for all 2^128 x (justifies L / L^-1 as an uninterpreted inverse pair)"
+//@ harness name=kuz_oracle_consts prop=C07 tier=quick bits=5 est=45 variants=kuznyechik desc="L (oracle only): the compile-time table CS[i] == c(i + 1) = L(Vec128(i + 1)) evaluated by the solver, i symbolic in 0..32 (CS replaces c in the key schedule queries)"
 verif_harness! {
-    name: kuz_l_inverse,
+    name: kuz_oracle_consts,
+    bytes: 1,
+    unwind: 20,
+    prop: |inp| {
+        let i = (inp[0] & 31) as usize;
+        Some(CS[i] == r::c(i + 1))
+    }
+}
+
+//@ harness name=kuz_l_inverse_fb prop=C07,C01 tier=quick bits=128 est=130 variants=kuznyechik desc="L (oracle only, stepwise, direct): R^-1(R(a)) == a along the 16 steps of L, hence L^-1(L(x)) == x for all 2^128 x (with kuz_l_inverse_bf: justifies L / L^-1 as an uninterpreted inverse pair)"
+verif_harness! {
+    name: kuz_l_inverse_fb,
     bytes: 16,
     unwind: 20,
     prop: |inp| {
         let x: B16 = take(inp, 0);
-        // forwards then backwards
         let mut a = [[0u8; 16]; 17];
         a[0] = x;
         let mut i = 0;
@@ -348,11 +419,19 @@ verif_harness! {
             b = a[i - 1];
             i -= 1;
         }
-        vcheck!(r::l_inv(&r::l(&x)) == x);
-        // backwards then forwards
+        Some(r::l_inv(&r::l(&x)) == x)
+    }
+}
+//@ harness name=kuz_l_inverse_bf prop=C07,C01 tier=quick bits=128 est=130 variants=kuznyechik desc="L (oracle only, stepwise, direct): R(R^-1(a)) == a along the 16 steps of L^-1, hence L(L^-1(x)) == x for all 2^128 x"
+verif_harness! {
+    name: kuz_l_inverse_bf,
+    bytes: 16,
+    unwind: 20,
+    prop: |inp| {
+        let x: B16 = take(inp, 0);
         let mut c = [[0u8; 16]; 17];
         c[0] = x;
-        i = 0;
+        let mut i = 0;
         while i < 16 {
             c[i + 1] = r::r_inv(&c[i]);
             vcheck!(r::r(&c[i + 1]) == c[i]);
@@ -371,7 +450,7 @@ verif_harness! {
     }
 }
 
-//@ harness name=kuz_oracle_roundtrip prop=C01 tier=thorough bits=1408 est=60 variants=kuznyechik desc="W (oracle only): D(E(b)) == b and E(D(b)) == b for arbitrary round keys and all blocks, S and L uninterpreted inverse pairs (with C07: enc == E and dec == D on every back end, this is the round trip of every back end)"
+//@ harness name=kuz_oracle_roundtrip prop=C01 tier=quick bits=1408 est=60 variants=kuznyechik desc="W (oracle only): D(E(b)) == b and E(D(b)) == b for arbitrary round keys and all blocks, S and L uninterpreted inverse pairs (with C07: enc == E and dec == D on every back end, this is the round trip of every back end)"
 verif_harness! {
     name: kuz_oracle_roundtrip,
     bytes: 160 + 16,
